@@ -364,6 +364,7 @@ class _Stop(Exception):
 
 class FirstWeightedChoice(ScriptedSource):
     """Records the first `choice_weighted` call made by the code under test, then stops it."""
+    dna = [0] * 64      # (create_tree_using_stacks is written for a genotype-backed ListWrapper: it sizes its operation budget by the genome)
 
     def choice_weighted(self, choices, weights):
         res = super().choice_weighted(choices, weights)
